@@ -207,11 +207,12 @@ impl<E: Endianness, BR: BitRead<E>, const PRINT: bool> BitRead<E> for CountBitRe
     }
 
     fn skip_bits(&mut self, n_bits: usize) -> Result<(), Self::Error> {
-        self.bits_read += n_bits;
-        if PRINT {
-            eprintln!("skip_bits({}) (total = {})", n_bits, self.bits_read);
-        }
-        self.bit_read.skip_bits(n_bits)
+        self.bit_read.skip_bits(n_bits).inspect(|_| {
+            self.bits_read += n_bits;
+            if PRINT {
+                eprintln!("skip_bits({}) (total = {})", n_bits, self.bits_read);
+            }
+        })
     }
 
     fn skip_bits_after_peek(&mut self, n: usize) {
